@@ -11,13 +11,16 @@ served, for the same block key too.  This file splits `step` at that `await`:
 * `carrive`: a request reaches `_render_blockwise`.  Everything up to the `await` happens here: the
   timers that are due, `Block1Spool.feed_and_take` (synchronous, so Block1 blocks are assembled in
   the order in which they arrive), and for a request that asks for the beginning of a representation
-  `mine = self._building[block_key] = object()`; the handler is invoked (`seen`) and the request
+  `mine = self._building[block_key] = object()` and the rendering kept under the block key is
+  dropped; the handler is invoked (`seen`) and the request
   stays pending.  A request for a later block is answered at once: 4.08 when a request for the
   beginning under its block key is pending (`if block_key in self._building`), else from the kept
   rendering as in `extractOrInsert`.
 * `cfinish`: the handler of a pending request returns or raises.  Everything after the `await`
   happens here: `latest = self._building.get(block_key) is mine`; only the latest request for the
-  beginning stores its rendering / drops the kept one.
+  beginning stores its rendering.  (What was kept before went when the request arrived, so a request
+  that ends without a rendering to keep — an exception, a return value that is no message, a short
+  response — has nothing to drop.)
 
 `Proofs/Blockwise/C06Overlap.lean` shows that an arrival immediately followed by its own completion
 is exactly `step` (`carrive_cfinish_eq_step`), so the theorems about `step` are the special case of
@@ -76,7 +79,10 @@ def carrive (T : Nat) (st : CState) (a : Arr) : CState × COut :=
     | .pass m =>
       if isFresh m then
         -- `mine = self._building[block_key] = object()`; `await response_builder()`
-        ({ st1 with building := ainsert (blockKey m) st.next st.building
+        -- and `del self._completes[block_key]` (KeyError ignored): what is kept from an earlier
+        -- request goes now, not when the handler ends
+        ({ st1 with r := { spool := f.1, cache := delIf c (blockKey m) }
+                    building := ainsert (blockKey m) st.next st.building
                     pending := st.pending ++ [{ id := st.next, m := m, viaCache := true }]
                     next := st.next + 1 },
          { resp := none, seen := some m, ticket := some st.next })
@@ -99,11 +105,13 @@ def afterBuild (T now : Nat) (c : TD Key Resp) (m : Msg) (out : Outcome) (latest
     TD Key Resp × Extract :=
   let k := blockKey m
   match out with
-  | .error code => (if latest then delIf c k else c, .raised code)
+  | .error code => (c, .raised code)
+  -- `len(assembled.payload)`: AttributeError, after `_building` has been cleared
+  | .junk => (c, .raised INTERNAL_SERVER_ERROR)
   | .ok a =>
     if needsChunking m a.payload.length then
       (if latest then c.set T now k a else c, sliceOf a m)
-    else (if latest then delIf c k else c, .ok a)
+    else (c, .ok a)
 
 /-- the handler invoked under token `id` returns or raises at time `now` -/
 def cfinish (T : Nat) (st : CState) (now id : Nat) (out : Outcome) : CState × COut :=
